@@ -308,10 +308,33 @@ impl<C: Suite> Interp<C> {
                 self.put(&st["out"], Obj::Rp(rp))?;
                 Ok(res)
             }
+            "tamper_seed" => {
+                let mut b = self.seed_bytes(&st["src"])?;
+                let d = st["d"].as_u64().unwrap_or(1) as u8;
+                if let Some(l) = b.last_mut() {
+                    *l = l.wrapping_add(d);
+                }
+                self.put(&st["out"], Obj::Bytes(b))?;
+                Ok(json!({"ok": true}))
+            }
             "rr_sign" => {
                 let (pkg, non, kp) = (self.pkg(&st["pkg"])?, self.non(&st["non"])?, self.kp(&st["kp"])?);
                 let seed = self.seed_bytes(&st["seed"])?;
                 match frost_rerandomized::sign_with_randomizer_seed(&pkg, &non, &kp, &seed) {
+                    Ok(z) => {
+                        let res = json!({"ok": true, "z": Self::sj(&Self::zs_scalar(&z))});
+                        self.put(&st["out"], Obj::Zs(z))?;
+                        Ok(res)
+                    }
+                    Err(e) => Ok(self.err_j(&e)),
+                }
+            }
+            "rr_sign_fixed" => {
+                let (pkg, non, kp) = (self.pkg(&st["pkg"])?, self.non(&st["non"])?, self.kp(&st["kp"])?);
+                let rp = self.rp(&st["rp"])?;
+                #[allow(deprecated)]
+                let r = frost_rerandomized::sign(&pkg, &non, &kp, *rp.randomizer());
+                match r {
                     Ok(z) => {
                         let res = json!({"ok": true, "z": Self::sj(&Self::zs_scalar(&z))});
                         self.put(&st["out"], Obj::Zs(z))?;
